@@ -15,7 +15,7 @@ IsEvent(e) == l <= Len(Trace) /\ Trace[l].e = e /\ l' = l + 1
 TraceInit == GInit /\ l = 1 /\ TLCSet(1, 1)
 
 TScenario == IsEvent("Scenario") /\ phase \in {"idle", "done"} /\ Load(Trace[l])
-TStart    == IsEvent("Start")    /\ Start(Trace[l].p)
+TStart    == IsEvent("Start")    /\ StartCf(Trace[l].p, Trace[l])
 TEnd      == IsEvent("End")      /\ End(Trace[l].p)
 TErr      == IsEvent("Err")      /\ AddErr(Trace[l].p, Trace[l].c)
 TRecover  == IsEvent("Recover")  /\ Recover
